@@ -7,15 +7,48 @@
 // explored by stateless DFS under the cooperative scheduler. Deadlock (consumer blocked, eventfd not
 // readable, producers finished) with an item still queued is the missed wake-up verdict.
 #define VR_OWN_VERIF_POINT
-#include <pistache/mailbox.h>
+// Scheduling points come from two source-independent layers: every std::atomic operation inside mailbox.h
+// (atomic_shim.h) and every read/write on the queue's eventfd (interposed below). The explicit
+// PISTACHE_VERIF_POINT hooks in mailbox.h mark the same places and are therefore not used as extra points.
+#include "common/atomic_shim.h"
+#include <pistache/common.h>
 #include <pistache/os.h>
+#define atomic verif_atomic
+#include <pistache/mailbox.h>
+#undef atomic
 
 #include "common/explore.h"
 #include "common/runner.h"
 
+#include <dlfcn.h>
+
 using namespace Pistache;
 
-extern "C" void pistache_verif_point(int kind, const void* addr) { vs_point(kind, addr); }
+extern "C" void pistache_verif_point(int, const void*) { }
+
+static int g_efds[8];
+static int g_nefds = 0;
+static bool is_efd(int fd)
+{
+    for (int i = 0; i < g_nefds; ++i)
+        if (g_efds[i] == fd)
+            return true;
+    return false;
+}
+extern "C" ssize_t write(int fd, const void* buf, size_t n)
+{
+    static auto fn = reinterpret_cast<ssize_t (*)(int, const void*, size_t)>(dlsym(RTLD_NEXT, "write"));
+    if (is_efd(fd))
+        vs_point(VS_PQ_PUSH_BEFORE_NOTIFY, (const void*)(long)fd);
+    return fn(fd, buf, n);
+}
+extern "C" ssize_t read(int fd, void* buf, size_t n)
+{
+    static auto fn = reinterpret_cast<ssize_t (*)(int, void*, size_t)>(dlsym(RTLD_NEXT, "read"));
+    if (is_efd(fd))
+        vs_point(VS_PQ_POP_BEFORE_DRAIN, (const void*)(long)fd);
+    return fn(fd, buf, n);
+}
 
 struct Scn
 {
@@ -84,6 +117,8 @@ static void run_case(uint64_t idx, vr::Ctx& ctx)
         w->q.reset(new PollableQueue<int>());
         w->q->bind(*w->poller);
         w->efd = w->q->event_fd;
+        g_efds[0] = w->efd;
+        g_nefds   = 1;
         for (int i = 0; i < c.P; ++i)
         {
             w->pargs[i] = { w, i };
@@ -141,11 +176,26 @@ static void run_case(uint64_t idx, vr::Ctx& ctx)
         }
         if (x.preemptions() > 0)
             ctx.nontrivial(h);
-        delete w;
+        // a cut chain (pop() finds nothing although head != tail) would make ~Queue() spin on a null entry:
+        // report it and leak this world instead of destroying it
+        bool wedged = false;
+        if (!x.deadlock)
+        {
+            while (w->q->popSafe())
+            { }
+            wedged = !w->q->empty();
+        }
+        else
+            wedged = true; // threads were abandoned mid-operation: do not run destructors over their state
+        if (wedged && !x.deadlock)
+            ctx.violation("c13:queue-wedged:pop-finds-nothing-but-queue-not-empty", detail("\"x\":0"));
+        if (!wedged)
+            delete w;
         w = nullptr;
     };
     ex::Stats st;
-    ex::explore(sc, c.bound, st, 4000000, [&](const ex::Execution&) {}, c.shard, c.nshards);
+    auto stopCheck = [&](const ex::Execution&) { if (ctx.case_violations >= 3) st.stop = true; };
+    ex::explore(sc, c.bound, st, 4000000, stopCheck, c.shard, c.nshards);
     ctx.count("executions", st.executions);
     ctx.count("transitions", st.transitions);
     ctx.count("deadlocks", st.deadlocks);
